@@ -353,6 +353,17 @@ def run_order(ctx, rule="C09.order"):
     ok = comp_if is not None and cfg.dominates(comp_if, follow)
     ctx.ob(rule, f.site, ok, "" if ok else "the register check can_follow runs before the program is compiled",
            role="compile-before-follow", line=runc.lineno)
+    # whether the segment is compiled (i.e. replaced by a locked copy the engine may bind / roll / run) depends on the
+    # compile options only, never on the state of the user's program
+    reads_prog = None
+    for h, lab in cfg.branch_conditions(comp):
+        hn = cfg.node(h)
+        if hn.kind in ("if", "while") and pv in {x.id for x in ast.walk(hn.ast) if isinstance(x, ast.Name)}:
+            reads_prog = hn
+    ctx.ob(rule, f.site, reads_prog is None, "" if reads_prog is None else
+           f"`{ast.unparse(reads_prog.ast)[:60]}`: compilation of a segment is skipped depending on the program's own state - the "
+           "engine then binds, locks and runs the user's program object itself instead of a compiled copy", role="compile-unconditional",
+           line=(reads_prog.ast.lineno if reads_prog is not None else runc.lineno))
     hdr = [n.id for n in cfg.nodes if n.kind == "for" and run in cfg.reachable([n.id], exc=False)]
     ok = bool(hdr) and cfg.must_pass(run, [app], exits=[hdr[0], cfg.exit], exc=False)
     ctx.ob(rule, f.site, ok, "" if ok else "a normal path leaves _run_program and reaches the next segment without "
@@ -474,6 +485,16 @@ def reset_completeness(ctx, rule="C09.reset"):
         or "run_progs" in _self_attr_writes_func(f)
     ctx.ob(rule, f.site, clears, "" if clears else "reset no longer clears the measured values of the programs that were run",
            role="clear-regrefs", line=f.node.lineno)
+    # ... of EVERY program: the clearing call sits in a loop over all of self.run_progs, on its loop variable
+    every = False
+    for lp in [n for n in walk_no_nested(f.node) if isinstance(n, ast.For)]:
+        if dotted(lp.iter) == "self.run_progs" and isinstance(lp.target, ast.Name):
+            every = every or any(isinstance(n, ast.Call) and isinstance(n.func, ast.Attribute) and n.func.attr == "_clear_regrefs"
+                                 and dotted(n.func.value) == lp.target.id for n in ast.walk(lp))
+    if clears:
+        ctx.ob(rule, f.site, every, "" if every else "reset clears the measured values of some of the programs that were run only: "
+               "the segments deep-copy their RegRefs from their parents, so the others keep their measured values and "
+               "re-running them after the reset uses stale outcomes", role="clear-regrefs-all", line=f.node.lineno)
     ctx.ob(rule, f.site, forgets, "" if forgets else "reset no longer empties run_progs", role="forget-progs",
            line=f.node.lineno)
     g = ctx.tree.func("engine.py", "LocalEngine.reset")
@@ -550,7 +571,26 @@ def values(ctx):
     ctx.floor("C09.values", 2)
 
 
+def parent_copy(ctx, rule="C09.effects"):
+    ctx.explain(f"{rule}: (parent) a Program constructed from a parent takes a DEEP copy of the parent's RegRef map: the RegRefs "
+                "carry the measured values and the activity flags, a shallow copy would let the child's New / Del / measurements "
+                "change the parent program.")
+    f = ctx.tree.func("program.py", "Program.__init__")
+    n = 0
+    for st in walk_no_nested(f.node):
+        if isinstance(st, ast.Assign) and dotted(st.targets[0]) == "self.reg_refs":
+            d = derives(f.node, st.value)
+            if not any(a.endswith(".reg_refs") for a in d.attrs):
+                continue
+            n += 1
+            ok = d.has_call("copy.deepcopy", "deepcopy")
+            ctx.ob(rule, f.site, ok, "" if ok else f"`{ast.unparse(st)[:60]}` shares the RegRef objects of the parent program",
+                   role="parent-regrefs-deepcopy", line=st.lineno)
+    ctx.require(n >= 1, "Program.__init__ no longer copies reg_refs from a parent program")
+
+
 def rules(ctx):
+    parent_copy(ctx)
     values(ctx)
     paired_restore(ctx)
     writers(ctx)
